@@ -360,6 +360,11 @@ func (se *SessionExecutor) preBuildUnshardPlan(reqCtx *util.RequestContext, db s
 		return nil, false
 	}
 
+	if isUnshardPlan && plan.MentionsShardTable(rt, sql) {
+		// the tokens looked unsharded but the text names a sharded table somewhere: let the parser decide
+		isUnshardPlan = false
+	}
+
 	if isUnshardPlan {
 		// check databases and tables in sql
 		p, err := plan.PreCreateUnshardPlan(sql, phyDBs, ruleDB)
